@@ -54,7 +54,9 @@ func main() {
 	tags := flag.String("tags", "", "build tags")
 	sitesOut := flag.String("sites", "", "write the site table here (JSON)")
 	siteBase := flag.Int("sitebase", 1, "first site id")
+	module := flag.String("module", modPath, "module path whose packages are rewritten")
 	flag.Parse()
+	modPath = *module
 	if *dir == "" || flag.NArg() == 0 {
 		fatal("usage: simrewrite -dir <copy> [-tags t] [-sites out.json] pkgs...")
 	}
